@@ -135,6 +135,25 @@ def expected_offers(name, arg, text):
         for m in pat.finditer(text):
             out.add(text[:m.start(2)] + text[m.end(2):])
         return out
+    if name == 'peep':
+        # every (position, rule) pair is an instance: ask the pass itself for the candidate of each pair (transform is a
+        # function of the cursor), independently of how `advance` walks them
+        from cvise.passes.peep import PeepPass
+        rules = {'a': len(PeepPass.regexes_to_replace), 'b': len(PeepPass.delimited_regexes_to_replace), 'c': 1}[arg]
+        d = Path(tempfile.mkdtemp(prefix='peepx-'))
+        out = set()
+        try:
+            p = T.make(name, arg)
+            f = d / 'a.c'
+            for pos in range(len(text)):
+                for r in range(rules):
+                    f.write_text(text)
+                    res, _ = p.transform(str(f), {'pos': pos, 'regex': r}, ProcessEventNotifier(None))
+                    if res == PassResult.OK:
+                        out.add(f.read_text())
+        finally:
+            shutil.rmtree(d, ignore_errors=True)
+        return out
     return None
 
 
@@ -187,13 +206,14 @@ def run_case(ctx, name, arg, text, diffs, lines, reals, stats):
 def offers_part(ctx):
     rng = ctx.rng
     n = 25 if ctx.tier == 'quick' else 300
-    for name, arg in [('lines', 'None'), ('balanced', 'parens'), ('balanced', 'curly'), ('ints', 'a')]:
-        for _ in range(n):
-            text = T.gen_text(name, arg, rng, size=rng.randint(1, 5))
+    peep_texts = [',xa;', ', b1;', ',x = y2,', 'a,0', 'x = 1 + y;', ',0,', 'f(a, 1);,', 'if (x) { y; }']
+    for name, arg in [('lines', 'None'), ('balanced', 'parens'), ('balanced', 'curly'), ('ints', 'a'), ('peep', 'a'), ('peep', 'b'), ('peep', 'c')]:
+        for i in range(n if name != 'peep' else (len(peep_texts) if arg == 'b' else 3)):
+            text = T.gen_text(name, arg, rng, size=rng.randint(1, 5)) if name != 'peep' else peep_texts[i]
             exp = expected_offers(name, arg, text)
             if not exp:
                 continue
-            got = set(all_reject_offers(name, arg, text, ctx.scratch))
+            got = set(all_reject_offers(name, arg, text, ctx.scratch, cap=400 if name != 'peep' else 120 * (len(text) + 2)))
             ctx.count()
             missing = exp - got
             if missing:
